@@ -5,7 +5,7 @@
    then evaluated on that tree. *)
 From V.model Require Import Base RelLex RelParse RelAcc RelGrammar.
 From V.proofs Require Import BaseP RelGrammarLexP RelGrammarParseP RelGrammarAccP.
-From V.model Require Import RelEdit RelEditSpec.
+From V.model Require Import RelEdit RelEditSpec RelEditTree.
 From V.proofs Require Import RelEditP.
 Set Default Timeout 60.
 
